@@ -1043,13 +1043,20 @@ class PortSegment(CIPSegment):
         else:
             link = segment.link_address
 
+        if port > 14:
+            # the port field is 4 bits wide, 15 means that a 16-bit extended port identifier follows (after the link size)
+            _ext_port = UINT.encode(port)
+            port = 15
+        else:
+            _ext_port = b""
+
         if len(link) > 1:
             port |= cls.extended_link
             _len = USINT.encode(len(link))
         else:
             _len = b""
 
-        _segment = USINT.encode(port) + _len + link
+        _segment = USINT.encode(port) + _len + _ext_port + link
         if len(_segment) % 2:
             _segment += b"\x00"
 
